@@ -312,6 +312,8 @@ impl<
     pub fn clear(&self) {
         // TODO: item call back
         self.shards.iter().for_each(|shard| shard.write().clear());
+        // the expiry index must not outlive the entries it lists
+        self.em.clear();
     }
 
     pub fn hasher(&self) -> ES {
